@@ -610,11 +610,12 @@ func oblBases(in ssa.Instruction) []string {
 		return []string{"safe:nilmap@" + render(x.Map, 0), "safe:hashkey@" + render(x.Key, 0)}
 	case *ssa.BinOp:
 		r := render(x, 0)
-		return []string{"safe:div@" + r, "exact:add@" + r, "exact:sub@" + r, "exact:mul@" + r, "exact:quo@" + r, "exact:shl@" + r}
+		return []string{"safe:div@" + r, "exact:add@" + r, "exact:sub@" + r, "exact:mul@" + r, "exact:quo@" + r, "exact:shl@" + r, "exact:compare@" + render(x.X, 0), "exact:compare@" + render(x.Y, 0)}
 	case *ssa.UnOp:
 		return []string{"exact:neg@" + render(x, 0)}
 	case *ssa.Call:
-		return []string{"safe:call@" + render(x, 0), "fresh-recv@" + render(x, 0), "frame:append@" + render(x, 0), "frame:copy@" + render(x, 0)}
+		r := render(x, 0)
+		return []string{"safe:call@" + r, "fresh-recv@" + r, "frame:append@" + r, "frame:copy@" + r, "operand-kept@" + r, "operand-kept@" + r + ":out1", "operand-kept@" + r + ":out2"}
 	case *ssa.Store:
 		out := []string{"frame:store@" + render(x.Addr, 0)}
 		if fa, ok := x.Addr.(*ssa.FieldAddr); ok {
